@@ -674,7 +674,11 @@ def refusals_are_total(prog, rep, rule="channel-unique-guard"):
                 for a in list(r.exc.args) + [k.value for k in r.exc.keywords]:
                     n += 1
                     bad = None
+                    from ..facts import template_call_is_total
+                    total = {id(z) for y in ast.walk(a) if template_call_is_total(raw, y, rc) for z in ast.walk(y)}
                     for y in ast.walk(a):
+                        if id(y) in total:
+                            continue   # a constant template (module / class level) filled with plain values: cannot raise on its own
                         # what can raise on its own: indexing with a computed index, %-formatting, method calls (lookups, .format, .index)
                         if isinstance(y, ast.Subscript) and not isinstance(y.slice, ast.Constant):
                             bad = y
